@@ -84,6 +84,15 @@ def cases(rng, tier):
         yield "w_bip85 %s wif 0 0" % wo, "bip85-request"
         yield "w_bip85 %s mnemonic 12 0" % wo, "bip85-request"
         yield "generate %s 0 0 1" % wo, "generate-request"
+        if depth >= 1 and j % 3 == 0:
+            pl = b58check_dec(xpub)
+            for fpx in (bytes(4), b"\xff" * 4):
+                xz = "xkey:" + sx(b58check_enc(pl[:5] + fpx + pl[9:]))
+                yield "wallet " + xz, "import-fingerprint-extreme"
+                sp1 = "/".join(["M"] + [str(i) for i in (sub or [0])])
+                meta1 = "%s|%s|%s" % (full, impl.lst(str, exp), impl.lst(str, sub or [0]))
+                yield "w_bypath %s %s #%s" % (xz, sx(sp1), meta1), "import-fingerprint-extreme"
+                yield "w_addr %s %s p2wpkh #%s" % (xz, sx(sp1), meta1), "import-fingerprint-extreme"
         hp = "/".join(["M"] + [str(i) for i in sub[:2]] + [rng.choice(["0'", "1h", "2147483647'", "44'"])])
         yield "w_bypath %s %s" % (wo, sx(hp)), "hardened-refused"
         yield "ckd %s %d -" % ("p:%s:%s:%d:%d:%s:none" % (hx(node.public_key.sec()), hx(node.chain_code), 0, 0, t),
